@@ -46,6 +46,8 @@ def generate(rng, tier):
                  "piston": rng.uniform(-5, 5), "noise": rng.choice([0.0, 0.01, 0.3, 1.0])},
         "latcaled": rng.random() < 0.8,
         "layout": rng.choice(["c", "c", "c", "c", "fortran", "transposed"]),
+        "meta": rng.random() < 0.3,                 # the object carries an instrument-metadata dict
+        "dtype": "f32" if rng.random() < 0.1 else "f64",
         # an interferogram without lateral calibration (dx = 0, the constructor's default) that
         # stays that way until a step calibrates it
         "uncal": rng.random() < 0.12,
@@ -70,6 +72,10 @@ def generate(rng, tier):
     if rng.random() < (0.001 if tier == "quick" else 0.003):
         # a realistically large map (over a million samples), short history of the fitting steps
         init["shape"] = rng.choice([[1024, 1024], [900, 1300], [1200, 1000]])
+        init["dtype"] = rng.choice(["f64", "f32"])
+        init["data"]["piston"] = rng.choice([init["data"]["piston"], 200.0])
+        if rng.random() < 0.5:
+            init["nan"]["kind"], init["nan"]["frac"] = "dropouts", 0.05
         init["nan"]["kind"] = rng.choice(["none", "circle", "ragged"])
         enabled = {"read": 2, "remove_piston": 1, "remove_tiptilt": 5, "remove_power": 2, "crop": 1}
         names = list(enabled)
@@ -231,11 +237,16 @@ def execute(plan):
     dx0 = init["dx"]
     uncal = bool(init.get("uncal"))
     z_user = z.copy()
+    f32data = init.get("dtype") == "f32"
+    if f32data:
+        z_user = z_user.astype(np.float32)
+        z = z_user.astype(np.float64)                # what the object really holds
     if init.get("layout") == "fortran":
         z_user = np.asfortranarray(z_user)            # the same samples in column-major memory
     elif init.get("layout") == "transposed":
         z_user = np.ascontiguousarray(z_user.T).T     # ... or as a transposed view
-    ifg = Interferogram(z_user, dx=dx0 if (init["latcaled"] and not uncal) else 0.0, wavelength=0.6328)
+    ifg = Interferogram(z_user, dx=dx0 if (init["latcaled"] and not uncal) else 0.0, wavelength=0.6328,
+                        meta={"instrument": "sim", "removed": 0} if init.get("meta") else None)
     if not init["latcaled"] and not uncal:
         # an un-calibrated interferogram is brought to a defined spacing first
         ifg.latcal(dx0)
@@ -515,11 +526,11 @@ def execute(plan):
                 if not bool(np.all(data_now[valid_before] == before[valid_before])):
                     viol("data-untouched", i, k, bits)
             if k == "remove_piston" and mdl.valid.any():
-                dv = data_now[mdl.valid]
-                if not abs(float(dv.mean())) <= 1e-9 * mdl.scale:
+                dv = data_now[mdl.valid].astype(np.float64)
+                if not abs(float(dv.mean())) <= (1e-5 if data_now.dtype == np.float32 else 1e-9) * mdl.scale:
                     viol("piston", i, k, bits, mean=float(dv.mean()), scale=mdl.scale)
-                ch = (before - data_now)[mdl.valid]
-                if not float(ch.max() - ch.min()) <= 1e-9 * mdl.scale:
+                ch = (before.astype(np.float64) - data_now.astype(np.float64))[mdl.valid]
+                if not float(ch.max() - ch.min()) <= (1e-5 if data_now.dtype == np.float32 else 1e-9) * mdl.scale:
                     viol("piston", i, k, bits, spread=float(ch.max() - ch.min()))
             if k in ("remove_tiptilt", "remove_power") and mdl.valid.any():
                 c2 = copy.deepcopy(ifg)
@@ -529,7 +540,7 @@ def execute(plan):
                     err = float(dv.max()) if dv.size else 0.0
                     # under the single-precision configuration (or with float32 coordinate
                     # grids still cached) the fit itself is only good to float32 rounding
-                    lowp = config.precision == np.float32 or any(
+                    lowp = config.precision == np.float32 or data_now.dtype == np.float32 or any(
                         getattr(getattr(ifg, "_" + w, None), "dtype", None) == np.float32 for w in "xyrt")
                     if not err <= (1e-4 if lowp else 1e-8) * mdl.scale:
                         cls = ""
@@ -661,7 +672,7 @@ def _tilt_plane(np, ifg, before, after, mdl, i, k, bits, viol):
     resid = ch - A @ coef
     lowp = any(np.asarray(getattr(c, w)).dtype == np.float32 for w in "xy")
     from prysm.conf import config as _cfg
-    lowp = lowp or _cfg.precision == np.float32
+    lowp = lowp or _cfg.precision == np.float32 or after.dtype == np.float32
     if resid.size and not float(np.abs(resid).max()) <= (1e-4 if lowp else 1e-7) * mdl.scale:
         viol("tilt-plane", i, k, bits, resid=float(np.abs(resid).max()), scale=mdl.scale)
     # "re-fitting the removed term to the result finds nothing": an independent least-squares refit
@@ -799,13 +810,16 @@ def _invariants(np, ifg, mdl, i, k, bits, viol):
         mean = float(dv.mean())
         want = {"pv": float(dv.max() - dv.min()), "rms": float(math.sqrt(float((dv * dv).mean()))),
                 "Sa": float(np.abs(dv - mean).mean()), "std": float(math.sqrt(float(((dv - mean) ** 2).mean())))}
+        st = 1e-4 if data.dtype == np.float32 else 1e-9       # single-precision data: single-precision statistics
+        if data.dtype == np.float32:
+            sc = max(sc, 1e-6 * mdl.scale)                    # residues far below float32 resolution of the map are noise
         for nm in want:
-            if not abs(got[nm] - want[nm]) <= 1e-9 * sc:
+            if not abs(got[nm] - want[nm]) <= st * sc:
                 viol("stats", i, k, bits, which=nm, got=got[nm], want=want[nm])
                 return
-        if not abs(got["rms"] ** 2 - (got["std"] ** 2 + mean ** 2)) <= 1e-9 * sc * sc:
+        if not abs(got["rms"] ** 2 - (got["std"] ** 2 + mean ** 2)) <= st * sc * sc:
             viol("stats", i, k, bits, which="rms2=std2+mean2")
-        if not (got["Sa"] <= got["std"] + 1e-9 * sc and got["std"] <= got["pv"] + 1e-9 * sc):
+        if not (got["Sa"] <= got["std"] + st * sc and got["std"] <= got["pv"] + st * sc):
             viol("stats", i, k, bits, which="Sa<=std<=PV", got=got)
 
 
